@@ -52,7 +52,7 @@ CHECKS = {
     "C11": (
         True,
         "Lean 4 proof that a delimited read is a function of its own line (no carry-over, one value per field, absent tokens None, surplus ignored) + differential correspondence on write/read/padded-read and on read sequences through one Line and through RegisterFile.read",
-        "Theorems Props.C11.split_join (split after join is the identity on delimiter-free tokens, any multi-character delimiter), writeDelim_eq, read_written, main (the whole of Spec.C11.holds: written text, token-wise canonical read-back, blank padding irrelevant, no carry-over) under the per-token law TokLaw (proved for integers, literals, dates, floats and missing values: Props.C11.tokLaw_of_domain) on the sub-domain 'no character of the delimiter in a token'; Props.C11.main_dom is that statement from the decidable domain Spec.C11.inDomain. The rest of the property's domain (delimiters holding a blank, renderings that share a character with the delimiter without containing it as a substring) is evaluated per case on model and implementation.",
+        "Theorems Props.C11.split_join (split after join is the identity on delimiter-free tokens, any multi-character delimiter), writeDelim_eq, read_written, main (the whole of Spec.C11.holds: written text, token-wise canonical read-back, blank padding irrelevant, no carry-over) under the per-token law TokLaw (proved for integers, literals, dates, floats and missing values: Props.C11.tokLaw_of_domain) on the sub-domain 'no character of the delimiter in a token'; Props.C11.main_dom is that statement from the decidable domain Spec.C11.inDomain, and Props.C11.main_full (Props/C11S.lean) the whole of Spec.C11.holds for EVERY input of Spec.C11.inDomain, delimiters with blanks or sharing characters with tokens included (split_snoc).",
         "Trusted: Lean kernel; model lean/Cfi/Line.lean; for multi-character delimiters the domain guard is stronger than the property's wording (no character of the delimiter in a rendering).",
         "6/C11",
     ),
@@ -101,7 +101,7 @@ CHECKS = {
     "C18": (
         True,
         "Lean 4 model of the three reading loops with explicit consumption + Spec.C18.holds (returned, element bound) decided under a deterministic step budget on the implementation + differential element count",
-        "Spec.C18.holds: File.read returns and creates at most units (+declared sections) elements, units = lines (text) or bytes (binary). The harness counts append() calls and aborts at 2*(1+units+sections)+8; budget exhaustion is the failing input. Theorems Props.C18 (readline consumes input; further bounds listed in the evidence).",
+        "Spec.C18.holds: File.read returns and creates at most units (+declared sections) elements, units = lines (text) or bytes (binary). The harness counts append() calls and aborts at 2*(1+units+sections)+8; budget exhaustion is the failing input. Theorems Props.C18: every step consumes input and the loops end by themselves (result independent of the fuel) for register files in text storage, block files in both storages, section files, and (Props/C18B.lean: reg_bin_bound, reg_bin_fuel_independent) binary register files.",
         "Trusted: Lean kernel; model; binary register records at least one byte wide (domain).",
         "6/C18",
     ),
